@@ -3,7 +3,7 @@
    Byte strings are lists of Z; every theorem quantifies over ALL strings (and all schemas / keywords where they occur).
    What is NOT proved is listed in props/C09/meta.json (crash- and hang-freedom of the C++ is exploration only). *)
 From Coq Require Import ZArith List Bool Arith Lia.
-From CV Require Import C09.ParseModel C09.ParseProofs C09.NumProofs C09.LookupProofs C09.FlatProofs C09.ValueProofs C09.OrigProofs C09.NestedProofs C09.ComposedProofs.
+From CV Require Import C09.ParseModel C09.ParseProofs C09.NumProofs C09.LookupProofs C09.FlatProofs C09.ValueProofs C09.OrigProofs C09.NestedProofs C09.SeqProofs C09.ComposedProofs.
 Import ListNotations.
 Local Open Scope Z_scope.
 
@@ -196,6 +196,26 @@ Theorem C09_nested_unknown_keyword_original :
   (forall conf key, blocks_are_pieces conf (key_string_values conf key)).
 Proof. split; [exact nparse_unknown_keyword_original|exact blocks_are_pieces_of_parent]. Qed.
 Print Assumptions C09_nested_unknown_keyword_original.
+
+(* ---------------------------------------------------------------- sequences of configurations *)
+
+(* one module-level parser object, any SEQUENCE of configurations (accepted, or rejected at any stage and depth):
+   the registry (allowed keywords, value ranges) is empty at the start of every read_config_string -- it is cleared
+   by parse->clear() on every error path and by clear_keyword_registry() on success, and the brace error is raised
+   before anything is looked up -- and therefore the verdict on the k-th configuration is the verdict of a fresh
+   parser on that configuration alone *)
+Theorem C09_verdict_independent_of_history : forall strict items raws,
+  (forall raw, fst (mstep strict items mempty raw) = mempty) /\
+  mrun strict items mempty raws = (mempty, map (nparse_config strict items) raws).
+Proof. intros strict items raws. split; [exact (mstep_keeps_empty strict items)|exact (mrun_independent strict items raws)]. Qed.
+Print Assumptions C09_verdict_independent_of_history.
+
+(* the clearing is what makes it true: the same parser object used for two texts with no clear in between accepts a
+   misspelt keyword that sits where the first (rejected) text had a value *)
+Theorem C09_stale_registry_refuted :
+  exists items c1 c2, pseq true items mempty [c1; c2] = [false; true] /\ pseq true items mempty [c2] = [false].
+Proof. exact stale_registry_refuted. Qed.
+Print Assumptions C09_stale_registry_refuted.
 
 (* ---------------------------------------------------------------- values: strictness *)
 
